@@ -492,9 +492,16 @@ func (s *Sim) parkKey(g *gor, label string, key interface{}) {
 		if s.Free {
 			s.FreeYields++
 		}
+		free := s.Free
 		s.mu.Unlock()
-		if s.Free {
-			runtime.Gosched()
+		if free {
+			if strings.HasPrefix(label, "wait-") {
+				// a harness goroutine polling for others: it must let the bubble come to rest (the
+				// driver delivers the network actions the others wait for), a spin would not
+				time.Sleep(time.Millisecond)
+			} else {
+				runtime.Gosched()
+			}
 		}
 		return
 	}
